@@ -557,7 +557,7 @@ def _build_ops():
     _op("connector.begin_x", "connector", "begin_x", [0, 914400, -5, "x", 1.5, None, 2 ** 63], ("abs", 1))
     _op("para.line_spacing", "para", "line_spacing",
         [1, 1.0, 1.5, 0, 0.0, 132, 132.0, 132.00001, 132.000004, -0.1, -1e-9, -4e-6, 0.999995, 1e-6, True, "x", None,
-         b"1"] + V_SPC + V_NONFIN, ("abs", 127), pre=(None, 2.0, L("Pt", 10)), bounds=[(0, 132)], q=1e-5)
+         b"1", 2, 3] + V_SPC + V_NONFIN, ("spacing", 127), pre=(None, 2.0, L("Pt", 10)), bounds=[(0, 132)], q=1e-5)
     _op("para.space_before", "para", "space_before", V_SPC + [12700, 1.5, "x", True], ("abs", 127),
         pre=(None, L("Pt", 6)), bounds=[(0, 20116800)], q=127)
     _op("para.level", "para", "level", _int_range(0, 8), pre=(None, 3), bounds=[(0, 8)])
@@ -869,6 +869,14 @@ def _api_same(metric, v, back):
         if hasattr(v, "xml_value") or isinstance(v, str) and not isinstance(back, str):
             return back == v or float(back) == float(v)
         fv, fb = float(v), float(back)
+        if kind == "spacing":
+            # line_spacing: a Length is a fixed height and reads back as a Length (1/100 pt); any other number is a
+            # number of lines and reads back as a plain number (1/100000)
+            from pptx.util import Length
+            if isinstance(v, Length) != isinstance(back, Length):
+                return False
+            tol = q * (1 + 1e-6) if isinstance(v, Length) else 1e-5 * (1 + 1e-6)
+            return abs(fb - fv) <= tol + 4 * _ulp(fv)
         if kind == "abs":
             return abs(fb - fv) <= q * (1 + 1e-6) + 4 * _ulp(fv)
         if kind == "angle":
